@@ -14,7 +14,7 @@ import ast
 import itertools
 
 from ..program import AnalysisError, Inconclusive, ClassInfo
-from ..values import (Const, Sym, CRef, FRef, Bound, BoundB, Obj, Tup, App,
+from ..values import (Const, Sym, CRef, FRef, ERef, Bound, BoundB, Obj, Tup, App,
                       New, Raise, Coll, Part, walk)
 from ..interp import Interp, Hooks
 from ..galg import (GraphHooks, Evaluator, evaluate_set, deep_snapshot,
@@ -314,7 +314,7 @@ def root_of(v):
     """symbolic root (Sym) of an access path"""
     while True:
         if isinstance(v, App) and v.op in ('attr', 'item', 'mcall',
-                                           'dictview', 'iter'):
+                                           'dictview', 'iter', 'dictget'):
             v = v.args[1] if v.op == 'dictview' else v.args[0]
         elif isinstance(v, Sym):
             if v.meta and v.meta[0] == 'elem':
@@ -370,6 +370,30 @@ def _g12_one(prog, dg, adj, G, X, name, args, spec, r1, r2):
         if not rets:
             raise Inconclusive('R-G-1', 'no returning path of %s' % name,
                                f.where())
+        copied = False
+        for (p, v) in rets:
+            if isinstance(v, App) and v.op == 'call' and \
+                    isinstance(v.args[0], ERef) and \
+                    v.args[0].name in ('copy.deepcopy', 'copy.copy') and \
+                    list(v.args[1].items) == [G]:
+                deep = v.args[0].name.endswith('deepcopy')
+                copied = True
+                r2.fail(Finding(
+                    PROP, 'R-G-2', f.where(), f.short(),
+                    'copy-module:' + name,
+                    'DiGraph.%s is %s(self): %s' % (
+                        name, v.args[0].name,
+                        'the nodes (arbitrary hashable objects) are copied '
+                        'too, so for nodes that are compared by identity '
+                        'the result has other nodes than the graph: it is '
+                        'not equal to it and next(v) of a node v of the '
+                        'graph raises' if deep else
+                        'a shallow copy shares the adjacency dictionary and '
+                        'the successor sets with the graph')))
+        if copied:
+            r1.inst(op=f.short(), writes_to_arguments=[],
+                    note='built by the copy module')
+            return
         for (p, v) in rets:
             # writes
             muts = [e for e in p.log if e.kind in ('mutate', 'setattr',
@@ -454,7 +478,8 @@ def _aliases(I, v, path, roots, top=False, items_of=()):
     out = []
 
     def is_mutable_sym(x):
-        if isinstance(x, App) and x.op == 'item' and x.args[0] in items_of:
+        if isinstance(x, App) and x.op in ('item', 'dictget') and \
+                x.args[0] in items_of:
             return True
         t = I.typeof(x, path)
         return t is not None and t[0] == 'b' and t[1] in ('set', 'dict',
